@@ -46,6 +46,14 @@ func (a *xrAct) Run(ctx run.ExecuteContext, p interface{}) error {
 	return nil
 }
 
+// pusher is a method of xrAct so that the quiescence census sees the goroutine until it has counted itself out
+// (a plain closure has no fastflow frame left once Push has returned, and the decrement could lag behind the
+// observation on a loaded machine).
+func (a *xrAct) pusher(exe *mod.DefExecutor, dagIns *entity.DagInstance, obj *entity.TaskInstance, blocked *int64) {
+	exe.Push(dagIns, obj)
+	atomic.AddInt64(blocked, -1)
+}
+
 var xrStatus = []entity.TaskInstanceStatus{entity.TaskInstanceStatusInit, entity.TaskInstanceStatusContinue, entity.TaskInstanceStatusRetrying,
 	entity.TaskInstanceStatusEnding, entity.TaskInstanceStatusFailed, entity.TaskInstanceStatusSuccess, entity.TaskInstanceStatusBlocked}
 var xrCode = map[entity.TaskInstanceStatus]int{entity.TaskInstanceStatusInit: 1, entity.TaskInstanceStatusRunning: 2, entity.TaskInstanceStatusEnding: 3,
@@ -213,10 +221,7 @@ func runExecReg(cfg *runCfg) {
 				pushes[o]++
 				atomic.AddInt64(&blocked, 1)
 				obj := objs[o]
-				go func() {
-					exe.Push(dagIns, obj)
-					atomic.AddInt64(&blocked, -1)
-				}()
+				go act.pusher(exe, dagIns, obj, &blocked)
 				op = L(I(0), I(o))
 				meta.Count("ops", "push")
 			}
